@@ -617,51 +617,73 @@ Proof.
 Qed.
 
 (* ------------------------------------------------------------------ what a restart does to liveness *)
-(* operations that neither deliver a log nor hand a head directly to the head goroutine: poller ticks, guardian-set fetches,
-   re-observation requests, further restarts, a log whose block-time lookup fails *)
-Definition no_log_no_head (o : gop K) : Prop :=
-  match o with GEvm (OLog _ (Some _)) | GEvm (OHead _ _ _) => False | _ => True end.
+(* the guard of repo commit b274c5a is in the source (gen.ExtractedEvmGs is regenerated on every run: without the guard this lemma
+   stops compiling) *)
+Lemma restart_guard : evm_restart_enables_poller = true.
+Proof. reflexivity. Qed.
 
-Lemma gstep_off : forall c s (o : gop K), w_enabled s = false -> no_log_no_head o ->
-  w_enabled (fst (gstep c s o)) = false /\ w_pending (fst (gstep c s o)) = w_pending s /\ gtrace1 s o = match o with GEvm x => [x] | _ => [] end.
+(* the state the property cannot live with: messages pending and the block poller switched off *)
+Definition poller_inv (s : wstate) : Prop := w_pending s <> [] -> w_enabled s = true.
+
+Lemma evm_step_inv : forall c s x, poller_inv s -> poller_inv (fst (@evm_step K c s x)).
 Proof.
-  intros c s o He Ho. destruct o as [a|a h0|x|answers orc]; cbn [gstep fst gtrace1].
-  - repeat apply conj; [exact He|reflexivity|reflexivity].
-  - repeat apply conj; reflexivity.
-  - destruct x as [e [tm|]|n safe orc|hb ha rc bt]; try contradiction; cbn [evm_step step fst w_enabled w_pending];
-      repeat apply conj; try reflexivity; exact He.
-  - unfold poll_heads. rewrite He, poll_tick_disabled. cbn [fst snd map evm_steps w_enabled w_pending].
-    repeat apply conj; reflexivity.
+  intros c s x Hi. unfold poller_inv in *. destruct x as [e [tm|]|n safe orc|hb ha rc bt]; cbn [evm_step step fst w_pending w_enabled].
+  - intros _. reflexivity.
+  - exact Hi.
+  - intros Hne. destruct (fst (scan (c_wait (g_evm c)) safe n orc (w_pending s))) eqn:E; [contradiction|].
+    cbn [after_scan_enabled]. apply Hi. intros Hp. rewrite Hp in E. discriminate E.
+  - exact Hi.
+Qed.
+Lemma evm_steps_inv : forall c os s, poller_inv s -> poller_inv (fst (@evm_steps K c s os)).
+Proof.
+  intros c os. induction os as [|x t IH]; intros s Hi; [exact Hi|].
+  cbn [evm_steps fst]. apply IH. apply evm_step_inv. exact Hi.
 Qed.
 
-(* after a restart the NEW poller is off although w.pending still holds the entries of the previous Run: until the next log
-   arrives no head is processed, so nothing pending is forwarded, dropped or abandoned, whatever the chain does *)
-Theorem restart_stalls_until_next_log : forall c (ops : list (gop K)) s,
-  w_enabled s = false -> Forall no_log_no_head ops ->
-  w_pending (fst (grun c s ops)) = w_pending s /\ w_enabled (fst (grun c s ops)) = false /\
-  (forall k x, In x (evm_outs (snd (grun c s ops))) -> decisionb k x = false).
+Lemma gstep_inv : forall c s (o : gop K), poller_inv s -> poller_inv (fst (gstep c s o)).
 Proof.
-  intros c ops. induction ops as [|o t IH]; intros s He Hq.
-  - repeat apply conj; [reflexivity|exact He|intros k x H; contradiction].
-  - inversion Hq as [|o' t' Ho Ht]. subst. destruct (gstep_off c s o He Ho) as [G1 [G2 G3]].
-    destruct (IH _ G1 Ht) as [I1 [I2 I3]]. cbn [grun fst snd]. rewrite I1, G2. repeat apply conj; [reflexivity|exact I2|].
-    intros k x Hin. unfold evm_outs in *. cbn [concat] in Hin. rewrite flat_map_app in Hin. apply in_app_or in Hin.
-    destruct Hin as [Hin|Hin]; [|exact (I3 k x Hin)].
-    destruct (gstep_evm c s o) as [_ E]. rewrite E, G3 in Hin. apply filter_In in Hin. destruct Hin as [Hin _].
-    destruct o as [a|a h0|y|answers orc]; try contradiction.
-    destruct y as [e [tm|]|n safe orc|hb ha rc bt]; try contradiction; cbn [run step snd concat app] in Hin.
-    + destruct Hin as [Hin|Hin]; [subst x; reflexivity|contradiction].
-    + rewrite app_nil_r in Hin.
-      assert (Hf : filter (aboutb k) (reobserve (g_evm c) hb ha rc bt) = []) by apply about_reobserve.
-      destruct (decisionb k x) eqn:Ed; [|reflexivity]. exfalso.
-      assert (Hab : aboutb k x = true) by (destruct x; cbn in Ed |- *; try discriminate Ed; exact Ed).
-      assert (Hi : In x (filter (aboutb k) (reobserve (g_evm c) hb ha rc bt))) by (apply filter_In; split; assumption).
-      rewrite Hf in Hi. contradiction.
+  intros c s o Hi. destruct o as [a|a h0|x|answers orc]; cbn [gstep fst].
+  - exact Hi.
+  - unfold poller_inv. cbn [w_pending w_enabled]. rewrite restart_guard. intros Hne.
+    unfold restart_enabled. destruct (w_pending s); [contradiction|reflexivity].
+  - apply evm_step_inv. exact Hi.
+  - apply evm_steps_inv. exact Hi.
 Qed.
 
-Corollary restart_switches_poller_off : forall c s (a : gans K) h0,
-  w_enabled (fst (gstep c s (GRestart a h0))) = false /\ w_pending (fst (gstep c s (GRestart a h0))) = w_pending s.
-Proof. intros c s a h0. split; reflexivity. Qed.
+(* in EVERY reachable state - any number of restarts, failing fetches, logs, heads, re-observations, poller ticks - messages pending
+   imply that the block poller is switched on *)
+Theorem poller_on_while_pending : forall c (ops : list (gop K)) s, poller_inv s -> poller_inv (fst (grun c s ops)).
+Proof.
+  intros c ops. induction ops as [|o t IH]; intros s Hi; [exact Hi|].
+  cbn [grun fst]. apply IH. apply gstep_inv. exact Hi.
+Qed.
+Lemma winit_inv : poller_inv winit.
+Proof. intros H. exfalso. apply H. reflexivity. Qed.
+
+(* ... and without the guard (the tree before repo commit b274c5a) a restart leaves the poller off whatever is pending: poller ticks,
+   however many and whatever the node answers, process no head, emit nothing and leave w.pending as it is *)
+Lemma unrepaired_polls_do_nothing : forall c (polls : list (list (option Z) * (key -> rans))) s,
+  w_enabled s = false ->
+  w_pending (fst (grun_gen false c s (map (fun p => @GPoll K (fst p) (snd p)) polls))) = w_pending s /\
+  Forall (fun l => l = []) (snd (grun_gen false c s (map (fun p => @GPoll K (fst p) (snd p)) polls))).
+Proof.
+  intros c polls. induction polls as [|[answers orc] t IH]; intros s He; [split; [reflexivity|constructor]|].
+  cbn [map grun_gen fst snd gstep_gen]. unfold poll_heads. rewrite He, poll_tick_disabled. cbn [fst snd map evm_steps app].
+  destruct (IH (mkW (w_pending s) (w_cur s) false (w_last s)) eq_refl) as [I1 I2]. cbn [w_pending] in I1.
+  split; [exact I1|constructor; [reflexivity|exact I2]].
+Qed.
+
+Theorem unrepaired_restart_stalls : forall c s (a : gans K) h0 (polls : list (list (option Z) * (key -> rans))),
+  let s1 := fst (gstep_gen false c s (GRestart a h0)) in
+  w_enabled s1 = false /\
+  w_pending (fst (grun_gen false c s1 (map (fun p => @GPoll K (fst p) (snd p)) polls))) = w_pending s /\
+  Forall (fun l => l = []) (snd (grun_gen false c s1 (map (fun p => @GPoll K (fst p) (snd p)) polls))).
+Proof.
+  intros c s a h0 polls s1.
+  assert (He : w_enabled s1 = false) by reflexivity.
+  destruct (unrepaired_polls_do_nothing c polls s1 He) as [H1 H2].
+  repeat apply conj; [exact He|rewrite H1; reflexivity|exact H2].
+Qed.
 
 (* the next log (of any transaction) switches the poller on again ... *)
 Lemma log_switches_poller_on : forall c s e tm, w_enabled (fst (@gstep K c s (GEvm (OLog e (Some tm))))) = true.
@@ -687,6 +709,23 @@ Proof.
   - apply in_or_app. left. rewrite app_nil_r. rewrite evm_step_outs. cbn [w_pending].
     apply in_map_iff. exists (Confirmed k (p_msg p)). split; [reflexivity|exact R2].
   - exact R3.
+Qed.
+
+(* LIVENESS across restarts, without any "next log": after ANY history from a fresh Watcher value, a message that is pending is
+   forwarded by the first poller tick that publishes a head at or beyond its depth, if its receipt is unchanged *)
+Theorem restart_liveness : forall c (pre : list (gop K)) k p answers orc n sf last' err,
+  let s := fst (grun c winit pre) in
+  find k (w_pending s) = Some p -> wf_p p ->
+  poll_tick true (w_last s) answers = (last', [(n, sf)], err) ->
+  0 <= n < two64 -> p_height p + expected_of (c_wait (g_evm c)) sf p <= n ->
+  orc k = mkAns (Some (1, k_bh k)) ENone ->
+  In (WEvm (Confirmed k (p_msg p))) (snd (@gstep K c s (GPoll answers orc))) /\
+  find k (w_pending (fst (@gstep K c s (GPoll answers orc)))) = None.
+Proof.
+  intros c pre k p answers orc n sf last' err s Hf Hp Hpt Hn Hd Hg.
+  apply (restart_resumes_after_next_log c s k p answers orc n sf last' err); try assumption.
+  - apply (poller_on_while_pending c pre winit winit_inv). intros He. fold s in He. rewrite He in Hf. discriminate Hf.
+  - apply restart_pending_keys_distinct.
 Qed.
 
 (* a log whose block-time lookup fails: Run returns, the log is in no data structure, and - the subscription of the next Run does
